@@ -1,4 +1,6 @@
 import BarterModel.Lemmas.L2Pipeline
+import BarterModel.Lemmas.L2PipelinePartial
+import BarterModel.Lemmas.L2Oracle
 /-!
 # C06E — the end-to-end Binance L2 pipeline: websocket frames → local order books
 (sub-check of C06: the composition of the models of C12W, C06, C12 and C05)
@@ -623,5 +625,281 @@ theorem buffered_update_before_snapshot_witness :
   intro c hc; simp at hc; subst hc; decide +kernel
 
 end examples
+
+/-! ## 8. additions after the review of the sub-check theorems (`audit/sub/report_A.md`, C06E-1):
+REST snapshots of LIMITED depth
+
+`Contract` asks `SnapshotsGenuine`: every REST snapshot is its venue's FULL book. The code's fetchers
+request `…&limit=100` (`binance/spot/l2.rs:54`, `futures/l2.rs:57`), so for an instrument whose book is
+deeper than 100 levels on a side the hypothesis of `pipeline_book_is_truth`,
+`every_book_is_venue_truth`, `every_book_is_spec_book`, `truth_after_reinit` is false in the real
+wiring. `ContractOn cfg venues cover` asks of a snapshot `b` of subscription `sub` only equality with
+the venue's book ON the prices `cover sub b` (for the real fetchers:
+`fun _ b sd p => coveredBy 100 sd (sideOf b sd) p = true`, justified by
+`Props.C06.truncated_snapshot_genuine_on`); everything else of `Contract` is kept. `Contract` is the
+case `cover = everything` (`contract_is_on_everything`). -/
+
+/-- the full-depth contract is the partial-depth one with every price covered -/
+theorem contract_is_on_everything (cfg : Config) (venues : Nat → Venue) (c : ConnInput) :
+    Contract cfg venues c ↔ ContractOn cfg venues (fun _ _ _ _ => True) c := contract_iff_on_all cfg venues c
+
+/-- A freshly initialised connection on persisting books satisfies the partial-depth invariant with the
+parameters of ITS OWN snapshots (`subSeq`: per subscription the snapshot id; `subCover`: the prices its
+snapshot covers) — whatever the books held before. -/
+theorem fresh_connection_synced_on (cfg : Config) (venues : Nat → Venue)
+    (cover : Nat → OrderBook → Side → Rat → Prop) (books : Books) (snaps : List MarketEv)
+    (t : Transformer) (alive : Bool)
+    (hkeys : (cfg.instrumentMap.map (·.2)).Nodup) (hbooks : HasBooks cfg books)
+    (hs : SnapshotsGenuineOn cfg venues cover snaps) (hi : Transformer.init cfg.instrumentMap snaps = .ok t) :
+    ConnSyncedOn venues (subSeq cfg snaps) (subCover cfg cover snaps) ⟨t, applySnapshots books snaps, alive⟩ :=
+  open_syncedOn cfg venues cover books snaps t alive hkeys hbooks hs hi
+
+/-- **pipeline_book_is_truth_on** — `pipeline_book_is_truth` under the partial-depth contract, for ALL
+inputs, every number of connections and frames, hence after every prefix of the input:
+
+* the books the real pipeline's model holds are those of the state machine `pipelineState`;
+* the state satisfies C06's invariant ON PRICE SETS (`ConnSyncedOn`, spelled out in
+  `every_book_is_venue_truth_on`) with the parameters of the connection it belongs to —
+  `currentSnapshots cfg books conns` are the REST snapshots of the last connection that came up
+  (`current_snapshots_of_last_connection`): **every subscribed instrument's book holds, at every price
+  its current snapshot covers or the venue changed since that snapshot's id, the amount of the venue's
+  book as of the id its sequencer last admitted** — also after a break;
+* **or the consumer has been told**, exactly as in `pipeline_book_is_truth`. -/
+theorem pipeline_book_is_truth_on (cfg : Config) (fuel : Nat) (books : Books) (venues : Nat → Venue)
+    (cover : Nat → OrderBook → Side → Rat → Prop)
+    (conns : List ConnInput) (hf : Enough cfg fuel conns)
+    (hkeys : (cfg.instrumentMap.map (·.2)).Nodup) (hbooks : HasBooks cfg books)
+    (hc : ∀ c ∈ conns, ContractOn cfg venues cover c) :
+    (pipeline cfg fuel books conns).books = (pipelineState cfg books conns).books ∧
+    ConnSyncedOn venues (subSeq cfg (currentSnapshots cfg books conns))
+      (subCover cfg cover (currentSnapshots cfg books conns)) (pipelineState cfg books conns) ∧
+    ((pipelineState cfg books conns).alive = false →
+      (pipeline cfg fuel books conns).events = [] ∨
+      (pipeline cfg fuel books conns).events.getLast? = some .reconnecting) := by
+  have hnb : ∀ c ∈ conns, c.buffered = [] := fun c h => (hc c h).noBuffered
+  rw [pipeline_eq_spec _ _ _ _ hf]
+  refine ⟨spec_books_state cfg books conns hnb,
+    pipelineState_syncedOn cfg venues cover books conns hkeys hbooks hc, ?_⟩
+  intro hdead
+  by_cases h1 : specFin cfg conns = .pending
+  · rw [(spec_books_eq_managerRun cfg books conns h1).2.1]
+    rw [pipelineState_eq_runConns cfg books conns h1] at hdead
+    exact runConns_told cfg _ conns hnb rfl hdead
+  · left
+    unfold specPipeline
+    cases hfin : specFin cfg conns <;> simp_all
+
+/-- … spelled out per instrument. Let the state's transformer know subscription `sub` (entry `im`),
+configured with key `key`, and let `b0` be the snapshot the CURRENT connection brought for that key. Then
+the manager holds a book for `im.key` that is strictly ordered, reports the sequencer's last id and —
+**at every price `b0` covers, or that the venue changed in `(b0.sequence, sequence]`** — holds exactly
+the amount the venue's book has as of the sequence it reports (0: no level). Nothing is claimed at the
+other prices (`truncated_snapshot_pipeline_witness`). -/
+theorem every_book_is_venue_truth_on (cfg : Config) (fuel : Nat) (books : Books) (venues : Nat → Venue)
+    (cover : Nat → OrderBook → Side → Rat → Prop)
+    (conns : List ConnInput) (hf : Enough cfg fuel conns)
+    (hkeys : (cfg.instrumentMap.map (·.2)).Nodup) (hbooks : HasBooks cfg books)
+    (hc : ∀ c ∈ conns, ContractOn cfg venues cover c) (sub key : Nat) (im : Meta) (b0 : OrderBook)
+    (hl : (pipelineState cfg books conns).transformer.instrumentMap.lookup sub = some im)
+    (hk : cfg.instrumentMap.lookup sub = some key)
+    (h0 : firstSnapshot (currentSnapshots cfg books conns) key = some b0) :
+    ∃ b, (pipeline cfg fuel books conns).books.lookup im.key = some b ∧ SortedBook b ∧
+      b.sequence = im.sequencer.lastUpdateId ∧
+      ∀ sd p, (cover sub b0 sd p ∨ Touched (venues sub) b0.sequence b.sequence sd p) →
+        abs (sideOf b sd) p = bookAt (venues sub) b.sequence sd p := by
+  obtain ⟨hb, hs, _⟩ := pipeline_book_is_truth_on cfg fuel books venues cover conns hf hkeys hbooks hc
+  obtain ⟨b, hbk, hsync⟩ := hs.inv sub im hl
+  refine ⟨b, by rw [hb]; exact hbk, hsync.sorted, hsync.seq, ?_⟩
+  intro sd p hp
+  apply hsync.known sd p
+  simpa [subSeq, subCover, hk, h0, snapSeq] using hp
+
+/-- what `currentSnapshots` is: when the last connection of the input comes up and everything before it
+is over (so that it is reached), the current snapshots are that connection's -/
+theorem current_snapshots_of_last_connection (cfg : Config) (books : Books) (pre : List ConnInput)
+    (c : ConnInput) (hfirst : specFin cfg (pre ++ [c]) = .pending) (hnb : ∀ x ∈ pre, x.buffered = [])
+    (hpre : allOver cfg pre = true) (hopen : (connItems cfg c).isSome) :
+    currentSnapshots cfg books (pre ++ [c]) = c.snapshots :=
+  currentSnapshots_last cfg books pre c hfirst hnb hpre hopen
+
+section partialExamples
+open BarterModel.Props.C06
+
+/-- a deserialiser knowing the payload `d` = `exDel`, the genuine message of `exDeep` for `(2,3]` -/
+def exDe2 : De Update where
+  text := fun s => if s = "d" then some exDel else none
+  binary := fun _ => none
+
+def exCfg2 : Config := ⟨.spot, exDe2, [(0, 10)], ⟨125, 2, 60000⟩⟩
+
+/-- the `limit = 1` snapshot of `exDeep` at id 2 (best bid only), then the venue deletes its best bid -/
+def exTrunc : ConnInput := ⟨[(10, .snapshot ⟨2, [⟨100, 1⟩], []⟩)], [], [.ok (.text "d")], false⟩
+
+/-- **truncated_snapshot_pipeline_witness** — `Props.C06.truncated_snapshot_witness` through the whole
+pipeline: with a depth-limited (but otherwise genuine) REST snapshot the connection satisfies
+`ContractOn` (cover = `coveredBy 1`) and NOT `Contract`; the genuine gap-free continuation is admitted,
+no `Reconnecting`, no handler call — and the managed book ends with no bid at all while the venue's
+book as of the reported id 3 has the bid `99 ↦ 1` (a price the snapshot does not cover and the venue has
+not changed since): `pipeline_book_is_truth`'s conclusion fails, `pipeline_book_is_truth_on`'s holds. -/
+theorem truncated_snapshot_pipeline_witness :
+    ContractOn exCfg2 (fun _ => exDeep) (fun _ b sd p => coveredBy 1 sd (sideOf b sd) p = true) exTrunc ∧
+    ¬ Contract exCfg2 (fun _ => exDeep) exTrunc ∧
+    (pipeline exCfg2 9 [(10, OrderBook.default)] [exTrunc]).books = [(10, ⟨3, [], []⟩)] ∧
+    (pipeline exCfg2 9 [(10, OrderBook.default)] [exTrunc]).handled = [] ∧
+    (pipeline exCfg2 9 [(10, OrderBook.default)] [exTrunc]).events.all
+      (fun e => match e with | .reconnecting => false | _ => true) = true ∧
+    specBook exDeep 3 = ⟨3, [⟨99, 1⟩], []⟩ ∧ bookAt exDeep 3 .bids 99 = 1 ∧
+    Enough exCfg2 9 [exTrunc] := by
+  obtain ⟨hb, _, hsorted, hnot, hon, hg, _, _, _, hspec, _, h99, _⟩ := truncated_snapshot_witness
+  have hfs : ∀ b, firstSnapshot exTrunc.snapshots 10 = some b → b = ⟨2, [⟨100, 1⟩], []⟩ := by
+    intro b hb'
+    have : firstSnapshot exTrunc.snapshots 10 = some ⟨2, [⟨100, 1⟩], []⟩ := by decide
+    rw [this] at hb'
+    exact (Option.some.inj hb').symm
+  refine ⟨⟨rfl, ⟨by decide, ?_⟩, ?_⟩, ?_, by decide +kernel, by decide +kernel, by decide +kernel, hspec, h99, ?_⟩
+  · intro x hx b hb'
+    simp only [exCfg2, List.mem_cons, List.not_mem_nil, or_false] at hx
+    subst hx
+    rw [hfs b hb']
+    rw [hb] at hsorted hon
+    exact ⟨hsorted, hon⟩
+  · intro f hf m hp _
+    simp only [exTrunc, List.mem_cons, List.not_mem_nil, or_false] at hf
+    subst hf
+    simp [ExStream.parse, processText, exCfg2, exDe2] at hp
+    subst hp
+    exact ⟨2, 3, hg⟩
+  · intro hcon
+    have := (hcon.snapshots.genuine (0, 10) (by simp [exCfg2]) ⟨2, [⟨100, 1⟩], []⟩ (by decide)).2
+    rw [hb] at hnot
+    exact hnot this
+  · intro c hc; simp at hc; subst hc; decide +kernel
+
+end partialExamples
+
+/-! ## 9. a REST snapshot listing a price twice (review of the sub-check theorems, C06E-3)
+
+`pipeline_refines_spec` / `pipeline_factorises` are statements about the composed MODEL, whose book
+component is C05's `OrderBook.update` (a scan for the level to change). The code searches with
+`binary_search_by`; the two agree on sides whose prices are pairwise distinct, which `OrderBook::new`
+does not establish for a REST snapshot (sort only). `Result.booksBS` is the manager's cells run with the
+code's search (`BookManager.upsertBS`, C05M) — what `drv_c06e model` prints and the correspondence
+compares with the real pipeline. -/
+
+/-- **books_follow_the_code_search** — with strictly ordered initial books and strictly ordered
+snapshot payloads in the stream (C05's documented `WFSnapshot` precondition: pairwise distinct prices per
+side), the manager's run with the code's binary search IS `managerRun` (the book component of
+`pipeline`, to which §1–§8 refer). -/
+theorem books_follow_the_code_search (books : Books) (evs : List StreamEvent)
+    (hb : ∀ kb ∈ books, SortedBook kb.2)
+    (hs : ∀ k sn, StreamEvent.item k (.snapshot sn) ∈ evs → SortedBook sn) :
+    managerRunBS books evs = managerRun books evs := managerRunBS_eq books evs hb hs
+
+/-- … for the pipeline: if the manager's initial books and every REST snapshot of every connection are
+strictly ordered, the cells of the real manager (`booksBS`) are the pipeline model's books -/
+theorem pipeline_cells_follow_the_code_search (cfg : Config) (fuel : Nat) (books : Books)
+    (conns : List ConnInput) (hf : Enough cfg fuel conns) (hb : ∀ kb ∈ books, SortedBook kb.2)
+    (hs : ∀ c ∈ conns, ∀ k b, (k, Event.snapshot b) ∈ c.snapshots → SortedBook b) :
+    (pipeline cfg fuel books conns).booksBS books = (pipeline cfg fuel books conns).books := by
+  show managerRunBS books (pipeline cfg fuel books conns).events =
+    managerRun books (pipeline cfg fuel books conns).events
+  apply managerRunBS_eq books _ hb
+  intro k sn hmem
+  rw [pipeline_eq_spec _ _ _ _ hf] at hmem
+  by_cases h1 : specFin cfg conns = .pending
+  · rw [(spec_books_eq_managerRun cfg books conns h1).2.1] at hmem
+    obtain ⟨c, hcm, hsm⟩ := specStream_snapshots cfg conns k sn hmem
+    exact hs c hcm k sn hsm
+  · unfold specPipeline at hmem
+    cases hfin : specFin cfg conns <;> simp_all
+
+section dirtyExamples
+open BarterModel.Props.C06
+
+/-- the REST snapshot `bids [100:1, 100:2]` at id 2 (what `OrderBook::new` stores for these levels),
+then `m2` = delete bid 100 (`U = u = 3`) -/
+def exDirty : ConnInput :=
+  ⟨[(10, .snapshot ⟨2, [⟨100, 1⟩, ⟨100, 2⟩], []⟩)], [], [.ok (.text "m2")], false⟩
+
+/-- **repeated_price_snapshot_witness** — the excluded point, kernel-checked: a REST snapshot listing the
+price 100 twice, then a delete of 100 (admitted: no error, no notice). The pipeline MODEL's book (scan:
+deletes the first of the two) is `100:2`; the manager's cell with the code's binary search — what the
+real pipeline holds (`corpus/C06E`, case `dup_price_snapshot_min`) — is `100:1`; the price → amount map
+has no level at 100. So `pipeline_factorises`' `books = managerRun …` describes the code only for
+snapshots with pairwise distinct prices per side (`pipeline_cells_follow_the_code_search`); such a
+snapshot is not genuine for any venue (`SnapshotsGenuine` asks `SortedBook`), so the truth theorems
+are not affected. -/
+theorem repeated_price_snapshot_witness :
+    ¬ SortedBook ⟨2, [⟨100, 1⟩, ⟨100, 2⟩], []⟩ ∧
+    (pipeline exCfg 9 exBooks [exDirty]).books = [(10, ⟨3, [⟨100, 2⟩], []⟩)] ∧
+    (pipeline exCfg 9 exBooks [exDirty]).booksBS exBooks = [(10, ⟨3, [⟨100, 1⟩], []⟩)] ∧
+    (pipeline exCfg 9 exBooks [exDirty]).handled = [] ∧
+    (pipeline exCfg 9 exBooks [exDirty]).events.length = 2 ∧
+    Enough exCfg 9 [exDirty] := by
+  refine ⟨fun h => absurd h.bids (by decide), by decide +kernel, by decide +kernel, by decide +kernel,
+    by decide +kernel, ?_⟩
+  intro c hc; simp at hc; subst hc; decide +kernel
+
+end dirtyExamples
+
+
+/-! ## 10. the executable oracle's bookkeeping (review of the sub-check theorems, C06E-2)
+
+`drv_c06e spec` runs `Oracle.openConn` / `Oracle.frame` / `Oracle.eos` (ids only) and prints `notices`
+and `nerr`. `Oracle.conn` feeds it one connection's input in the order the ops arrive. -/
+
+/-- **oracle_frames_refine_spec** — over the frames of one live connection whose transformer the oracle
+tracks (`Tracks`: same subscriptions, the ids it holds are the sequencers'): the oracle is live
+afterwards iff the connection's items hold no terminal error, it counted one notice iff they do, and as
+many handler calls as there are errors among the delivered items — for ALL frame lists. -/
+theorem oracle_frames_refine_spec (cfg : Config) (o : Oracle) (t : Transformer) (frames : List Frame)
+    (hl : o.live = true) (hb : o.blocked = false) (hr : o.rules = cfg.rules) (ht : Tracks o.insts t) :
+    (frames.foldl (fun o f => o.frame (frameKind cfg.de f)) o).live =
+      !hasTerminalItem (specOut cfg.params t frames) ∧
+    (frames.foldl (fun o f => o.frame (frameKind cfg.de f)) o).notices =
+      o.notices + (if hasTerminalItem (specOut cfg.params t frames) then 1 else 0) ∧
+    (frames.foldl (fun o f => o.frame (frameKind cfg.de f)) o).errors =
+      o.errors + (itemErrors (deliveredItems (specOut cfg.params t frames))).length := by
+  obtain ⟨_, _, _, h4, h5, h6⟩ := oracle_frames_sim cfg o t frames hl hb hr ht
+  exact ⟨h4, h5, h6⟩
+
+/-- **oracle_connection_refines_spec** — one connection that comes up (`connItems = some items`,
+nothing buffered) on an oracle that is not live, not blocked, whose first `init` has not failed and
+whose instruments are the configured subscriptions: afterwards the oracle is live iff the connection is
+not over, its `notices` grew by one iff the connection is over, and its `errors` (`nerr`) by the number
+of errors among the delivered items — exactly what `specStream` / `specHandled` (hence, by
+`pipeline_refines_spec`, the pipeline) add for this connection: `itemEvents (deliveredItems items)`
+then one `Reconnecting` iff `connOver`, and `itemErrors (deliveredItems items)`. -/
+theorem oracle_connection_refines_spec (cfg : Config) (o : Oracle) (c : ConnInput) (items : List Item)
+    (hl : o.live = false) (hb : o.blocked = false) (hf : o.fin ≠ .initError) (hr : o.rules = cfg.rules)
+    (hm : cfg.instrumentMap = o.insts.map fun i => (i.sub, i.key))
+    (hnb : c.buffered = []) (hi : connItems cfg c = some items) :
+    (Oracle.conn cfg.de o c).fin = .pending ∧ (Oracle.conn cfg.de o c).blocked = false ∧
+    (Oracle.conn cfg.de o c).live = !connOver items c.ended ∧
+    (Oracle.conn cfg.de o c).notices = o.notices + (if connOver items c.ended then 1 else 0) ∧
+    (Oracle.conn cfg.de o c).errors = o.errors + (itemErrors (deliveredItems items)).length := by
+  rw [connItems_noBuffered cfg c hnb] at hi
+  cases hinit : Transformer.init cfg.instrumentMap c.snapshots with
+  | error e => simp [hinit] at hi
+  | ok t =>
+    simp only [hinit, Option.some.injEq] at hi
+    subst hi
+    exact oracle_conn_sim cfg o c t hl hb hf hr hm hnb hinit
+
+
+section oracleExamples
+open BarterModel.Props.C06
+
+/-- the hypotheses of `oracle_connection_refines_spec` hold for the driver's initial oracle … -/
+example : exCfg.instrumentMap = (Oracle.init .spot [(0, 10, exVenue)]).insts.map fun i => (i.sub, i.key) := rfl
+/-- … and its conclusion, computed on the broken connection: one notice, no handler call, not live -/
+example : (Oracle.conn exCfg.de (Oracle.init .spot [(0, 10, exVenue)]) exBroken).notices = 1 ∧
+    (Oracle.conn exCfg.de (Oracle.init .spot [(0, 10, exVenue)]) exBroken).errors = 0 ∧
+    (Oracle.conn exCfg.de (Oracle.init .spot [(0, 10, exVenue)]) exBroken).live = false ∧
+    (Oracle.conn exCfg.de (Oracle.init .spot [(0, 10, exVenue)]) exConn).errors = 1 ∧
+    (Oracle.conn exCfg.de (Oracle.init .spot [(0, 10, exVenue)]) exConn).live = true := by decide +kernel
+
+end oracleExamples
+
 
 end BarterModel.Props.C06E
